@@ -32,3 +32,19 @@ package varutil
 //@   loop 4 step value == cat(prev(value), sbyte(rinput(payload(reader))[rpos(reader) - 1]))
 
 //@ func SplitArguments [C17]
+
+// ReduceAbsPath is the stack machine on "/"-separated segments: names push, ".." pops
+// (error on an empty stack), "" and "." are skipped. The result has no ".." segment.
+//@ func ReduceAbsPath [C03 C01]
+//@   modifies $none
+//@   ensures err == nil ==> NoDotDot(result)
+//@   ensures err != nil ==> result == ""
+//@   loop 1 invariant 0 <= resultLen && resultLen <= $i + 1 && -1 <= $i && $i < len(baseNodes)
+//@   loop 1 invariant forall(k, 0 <= k && k < resultLen ==> Normal(resultNodes[k]))
+//@   loop 1 invariant forall(k, 0 <= k && k < len(baseNodes) ==> NoSlash(baseNodes[k]))
+//@   loop 1 decreases len(baseNodes) - $i
+//@   loop 1 step $i == prev($i) + 1 && v == baseNodes[$i]
+//@   loop 1 step Normal(v) ==> resultLen == prev(resultLen) + 1 && resultNodes[prev(resultLen)] == v
+//@   loop 1 step v == ".." ==> resultLen == prev(resultLen) - 1
+//@   loop 1 step (v == "" || v == ".") ==> resultLen == prev(resultLen)
+//@   loop 1 step forall(k, 0 <= k && k < prev(resultLen) && k < resultLen ==> resultNodes[k] == prev(resultNodes[k]))
